@@ -83,14 +83,17 @@ def response_bytes(kind, seq=0):
 
 
 class Runner:
-    def __init__(self):
+    def __init__(self, zboss_config=None):
         import zigpy_zboss.config as conf
         from zigpy_zboss.api import ZBOSS
         from zigpy_zboss import uart as U
         self.U = U
         self.loop = VLoop()
         asyncio.set_event_loop(self.loop)
-        cfg = conf.CONFIG_SCHEMA({conf.CONF_DEVICE: {conf.CONF_DEVICE_PATH: "/dev/null"}})
+        raw = {conf.CONF_DEVICE: {conf.CONF_DEVICE_PATH: "/dev/null"}}
+        if zboss_config is not None:
+            raw[conf.CONF_ZBOSS_CONFIG] = dict(zboss_config)
+        cfg = conf.CONFIG_SCHEMA(raw)
         self.api = ZBOSS(cfg)
         self.proto = U.ZbossNcpProtocol(cfg[conf.CONF_DEVICE], self.api)
         self.wire = Wire()
@@ -240,6 +243,10 @@ class Runner:
                 t[0].cancel()
         elif k == "uclose":
             proto.close()
+        elif k == "rflag":
+            # the library's own "a reset is in progress" mark on the protocol object (public setter; ZBOSS.reset() sets
+            # it): transmission discipline does not depend on it
+            proto.reset_flag = True
         elif k == "close":
             api.close()
         elif k == "lost":
